@@ -99,6 +99,33 @@ def handleAddr (args : List String) : String :=
     r.getD "bad-op"
   | _ => "bad-op"
 
+def showIdx : Option Idx → String
+  | none => "n"
+  | some (.num k) => "i" ++ toString k
+  | some (.str t) => "s" ++ t
+
+/-- `gval <idxs>` : `Group.get` on an idx-valued parameter -/
+def handleGval (args : List String) : String :=
+  match args with
+  | [vals] =>
+    match (idxsOf? vals).bind (fun l => l.mapM id) with
+    | some vs => match groupGetIdxVals vs with
+      | some r => if r.isEmpty then "-" else ",".intercalate (r.map (fun i => showIdx (some i)))
+      | none => "E"
+    | none => "bad-op"
+  | _ => "bad-op"
+
+/-- `dsel <optional idxs> <fallback idxs>` : `DataSelect.v` -/
+def handleDsel (args : List String) : String :=
+  match args with
+  | [o, f] =>
+    match idxsOf? o, idxsOf? f with
+    | some o, some f => match dataSelect o f with
+      | some r => if r.isEmpty then "-" else ",".intercalate (r.map showIdx)
+      | none => "E"
+    | _, _ => "bad-op"
+  | _ => "bad-op"
+
 /-- `req <begin> <ndev> <nvar> <collate>` : `DAE.request_address` alone -/
 def handleReq (args : List String) : String :=
   match args.mapM String.toNat? with
